@@ -95,7 +95,7 @@ def consRootsF (node : H → H → H) : Nat → List H → Nat → Nat → Bool 
 
 /-- AcceptCons p t n h root: tree `n` with hash `h` is a prefix of tree `t` with hash `root` -/
 def AcceptCons [DecidableEq H] (node : H → H → H) (p : List H) (t n : Nat) (h root : H) : Prop :=
-  1 ≤ n ∧ n ≤ t ∧ consRootsF node (t + 1) p t n true h = some (h, root)
+  1 ≤ n ∧ n ≤ t ∧ consRootsF node t p t n true h = some (h, root)
 
 instance [DecidableEq H] (node : H → H → H) (p : List H) (t n : Nat) (h root : H) :
     Decidable (AcceptCons node p t n h root) := by unfold AcceptCons; infer_instance
